@@ -231,6 +231,10 @@ pub fn free_graph(o: Object) -> usize {
 /// Evaluate `text` with the real interpreter under the given monitor configuration.
 pub fn eval_observed(text: &str, cfg: &ObsCfg) -> Obs {
     apply_cfg(cfg);
+    // the interpreter gets the text in an allocation of exactly its length, so that a read one byte past the end
+    // of the input is a read past an allocation (memcheck, AddressSanitizer and Miri can then see it)
+    let exact: Box<str> = text.into();
+    let text: &str = &exact;
     let r = catch_unwind(AssertUnwindSafe(|| nederlang::eval(text)));
     finish(r, cfg)
 }
